@@ -62,11 +62,13 @@ theorem arm_none (nl : ℚ → Ext) (A : AMat ℚ n) :
   by_cases h0 : A.get i j = 0 <;> simp [h0]
 
 theorem arm_inv (nl : ℚ → Ext) (A : AMat ℚ n) :
-    ∃ E', execs nl [ .bind "SPL" (.recip (mSelf "adjacency")) ] (env0 "adjacency" A) = some E' ∧
+    ∃ E', execs nl [ .bind "SPL" (.recip (mSelf "adjacency")), .setMask "SPL" (.eq (mSelf "adjacency") (.lit 0)) .inf ]
+        (env0 "adjacency" A) = some E' ∧
       E'.mat "adjacency" = some (A.map fun a => V.ext (.fin a)) ∧ E'.mat "SPL" = some ((lenMat .inv A).map V.ext) := by
   simp [execs, exec, Env.setMat, env0, mSelf, eval, evalIx]
   apply AMat.ext_get; intro i j
-  simp only [AMat.get_ofFn, map_get, lenMat, lenOf, V.recip, Ext.inv]
+  simp only [AMat.get_ofFn, map_get, lenMat, lenOf, V.recip, Ext.inv, V.eq, V.toExt, V.store]
+  by_cases h0 : A.get i j = 0 <;> simp [h0]
 
 theorem ext_add_zero (x : Ext) : x + Ext.fin ((0 : ℕ) : ℚ) = x := by
   cases x with
